@@ -218,3 +218,35 @@ def state_invariants(st):
             if any(k not in t['data'] for k in ix['refs']):
                 bad.append('%s.%s: ref to a key absent from Data' % (tn, name))
     return bad
+
+
+# ---------- unit-level cases ----------
+TOKCON = {'ILLEGAL': 'ILLEGAL', 'EOF': 'EOF', 'IDENT': 'IDENT', '<': 'LT', '<=': 'LTE', '>': 'GT', '>=': 'GTE', '=': 'EQ',
+          '<>': 'NotEQ', ',': 'COMMA', '(': 'LPAREN', ')': 'RPAREN', '[': 'LBRACKET', ']': 'RBRACKET', '.': 'DOT',
+          'AND': 'AND', 'OR': 'OR', 'NOT': 'NOT', 'BETWEEN': 'BETWEEN', 'IN': 'IN', 'SET': 'SET', 'REMOVE': 'REMOVE',
+          'ADD': 'ADD', 'DELETE': 'DELETE', '+': 'PLUS', '-': 'MINUS'}
+
+def cures(ob, kind):
+    r = ob['r']
+    if r == 'ok':
+        return '(UOkB %s)' % cbool(ob['verdict']) if kind == 'match' else '(UOkI %s)' % citem(ob.get('item') or {})
+    if r in ERRS:
+        return '(UErrC %s)' % r
+    return 'UPanicC'
+
+def cucase(op, ob):
+    o = op['op']
+    if o == 'lex':
+        if ob['r'] != 'ok':
+            return '(ULex %s [(ILLEGAL, (bs "<harness panic>"))])' % cstr(op['text'])
+        return '(ULex %s %s)' % (cstr(op['text']), clist(['(%s, %s)' % (TOKCON[t], cstr(l)) for t, l in ob['tokens']]))
+    if o == 'parse':
+        ast = ob.get('ast')
+        return '(UParse %s %s %d %s)' % (cbool(op.get('update', False)), cstr(op['text']), ob['errors'], copt(ast, cstr))
+    if o == 'match':
+        return '(UMatch %s %s %s %s %s)' % (cstr(op['expr']), citem(op.get('item')), citem(op.get('values')), cnames(op.get('names')), cures(ob, 'match'))
+    if o == 'lang_update':
+        return '(UUpdate %s %s %s %s %s)' % (cstr(op['expr']), citem(op.get('item')), citem(op.get('values')), cnames(op.get('names')), cures(ob, 'update'))
+    if o == 'float':
+        return '(UFloat %s %s)' % (cstr(op['text']), copt(ob.get('text') if ob['r'] == 'ok' else None, cstr))
+    raise ValueError(o)
